@@ -149,7 +149,7 @@ DEFAULT_IGNORE = ("logger.", "logging.", "time.", "print", "warnings.")
 class Interp:
     def __init__(self, idx, *, types=None, domains=None, volatile=(), handlers=None, inline=(),
                  ignore=DEFAULT_IGNORE, unknown_calls="error", max_paths=200000, max_loop=64,
-                 isinstance_oracle=None, inline_all=()):
+                 isinstance_oracle=None, inline_all=(), auto_private=True):
         self.idx = idx
         self.inline_all = set(inline_all)  # classes whose un-handled methods are inlined (robust to helper extraction)
         self.types = dict(types or {})  # receiver key -> class name, e.g. {'self': 'Matcher'}
@@ -162,6 +162,9 @@ class Interp:
         self.ignore = tuple(ignore)
         self.unknown_calls = unknown_calls
         self.max_paths = max_paths
+        self.auto_private = auto_private
+        self._stack = []
+        self._fi_stack = []
         self.max_steps = int(os.environ.get("VERIF_MAX_STEPS", "1000000"))
         self.steps = 0
         self.max_loop = max_loop
@@ -286,6 +289,13 @@ class Interp:
     # ------------------------------------------------------------ functions
     def call_function(self, fi, args, selfkey):
         self.functions_seen.add(fi.key())
+        self._fi_stack.append(fi)
+        try:
+            return self._call_function(fi, args, selfkey)
+        finally:
+            self._fi_stack.pop()
+
+    def _call_function(self, fi, args, selfkey):
         frame = {"__self__": selfkey}
         a = fi.node.args
         params = [p.arg for p in a.posonlyargs + a.args]
@@ -658,6 +668,11 @@ class Interp:
             if base.text == "string" and e.attr in ("ascii_letters", "ascii_lowercase", "ascii_uppercase", "digits", "hexdigits", "octdigits", "punctuation", "whitespace", "printable"):
                 import string as _string
                 return getattr(_string, e.attr)  # constants of the stdlib `string` module
+            # a reference to a private method of the analysed object's class (e.g. a sort key): a callable that interprets it
+            cls0 = self.types.get(base.text)
+            if (self.auto_private and cls0 and e.attr.startswith("_") and not e.attr.startswith("__") and self.idx is not None and self.idx.has_cls(cls0)
+                    and self.idx.has_method(cls0, e.attr) and not any(e.attr in c.properties for c in self.idx.mro(cls0))):
+                return _MethodRef(self, self.idx.method(cls0, e.attr), base.text)
             # property getters of inlinable classes
             cls = self.types.get(base.text)
             if cls and self._inl(cls, e.attr):
@@ -952,15 +967,18 @@ class Interp:
             else:
                 # method of a concrete builtin value
                 args = [self.eval(a, frame) for a in e.args]
+                ckw = {k.arg: self.eval(k.value, frame) for k in e.keywords if k.arg}
                 if isinstance(recv, (list, dict)) and meth in ("append", "extend", "insert", "pop", "remove", "clear", "get", "setdefault", "update", "copy", "index", "count", "keys", "values", "items"):
                     try:
-                        return getattr(recv, meth)(*args)
+                        return getattr(recv, meth)(*args, **ckw)
                     except Exception as ex:  # pylint: disable=W0718
                         raise Raised(type(ex).__name__)
-                if any(isinstance(a, Residual) for a in args):
+                if any(isinstance(a, Residual) for a in list(args) + list(ckw.values())):
                     return Residual(f"{txt(recv)}.{meth}({', '.join(txt(a) for a in args)})")
                 try:
-                    return getattr(recv, meth)(*args)
+                    return getattr(recv, meth)(*args, **ckw)
+                except (Raised, Undecidable):
+                    raise
                 except Exception as ex:  # pylint: disable=W0718
                     raise Raised(type(ex).__name__)
         elif isinstance(f, ast.Name):
@@ -973,7 +991,15 @@ class Interp:
         else:
             raise Undecidable(f"computed callee {full}")
         args = [self.eval(a.value if isinstance(a, ast.Starred) else a, frame) for a in e.args]
-        kwargs = {k.arg: self.eval(k.value, frame) for k in e.keywords if k.arg}
+        kwargs = {}
+        for k in e.keywords:
+            if k.arg:
+                kwargs[k.arg] = self.eval(k.value, frame)
+            else:
+                m = self.eval(k.value, frame)   # **mapping
+                if not isinstance(m, dict):
+                    raise Undecidable(f"** of a non-dict value in {full}")
+                kwargs.update(m)
         # domains keyed by callee key
         ck_call = f"{ckey}()"
         if ck_call in self.domains:
@@ -1002,6 +1028,31 @@ class Interp:
                 a = dict(kwargs)
                 a["__pos__"] = args
                 return self.call_function(fi, a, recv.text)
+        # a private helper of the analysed object's own class that the rule neither modelled nor listed: follow it.  (Extract-method is the
+        # commonest refactoring; whatever the rule says about the caller must hold with the callee's code in place.)
+        if self.auto_private and recv is not None and isinstance(recv, Residual) and meth.startswith("_") and not meth.startswith("__"):
+            cls = self.types.get(recv.text)
+            if cls and self.idx is not None and self.idx.has_cls(cls) and self.idx.has_method(cls, meth) and len(self._stack) < 12:
+                fi = self.idx.method(cls, meth)
+                if fi.name == meth and not any(isinstance(n, (ast.Yield, ast.YieldFrom)) for n in ast.walk(fi.node)):
+                    a = dict(kwargs)
+                    a["__pos__"] = args
+                    self._stack.append(meth)
+                    try:
+                        return self.call_function(fi, a, recv.text)
+                    finally:
+                        self._stack.pop()
+        # … and a private module-level helper defined in the file of the function being interpreted
+        if (self.auto_private and recv is None and isinstance(f, ast.Name) and meth.startswith("_") and not meth.startswith("__") and self._fi_stack
+                and self.idx is not None and (self._fi_stack[-1].file, meth) in getattr(self.idx, "module_funcs", {}) and meth not in frame and len(self._stack) < 12):
+            mf = self.idx.module_funcs[(self._fi_stack[-1].file, meth)]
+            a = dict(kwargs)
+            a["__pos__"] = args
+            self._stack.append(meth)
+            try:
+                return self.call_function(mf, a, "__module__")
+            finally:
+                self._stack.pop()
         # ignored calls (logging, timing)
         for pat in self.ignore:
             if pat.endswith("."):
@@ -1022,6 +1073,11 @@ class Interp:
                     return fn(*args)
                 except Exception as ex:  # pylint: disable=W0718
                     raise Raised(type(ex).__name__)
+        if ckey == "itertools.count" and not any(isinstance(a, (Residual, Obj)) for a in args):
+            # an unbounded counter: enough values for any loop the budget allows (a loop that exhausts them is undecidable anyway)
+            start = args[0] if args else 0
+            step = args[1] if len(args) > 1 else 1
+            return [start + i * step for i in range(self.max_loop + 1)]
         if recv is None and meth == "type" and len(args) == 1 and not isinstance(args[0], (Residual, Obj)):
             return Residual(type(args[0]).__name__)
         # reflection with a constant name on an abstract object: the same store the attribute syntax uses
@@ -1124,6 +1180,24 @@ class _Closure:
 
     def __deepcopy__(self, memo):
         return self
+
+
+class _MethodRef:
+    """a bound private method of the analysed class used as a value (sort key, callback): calling it interprets the method"""
+
+    def __init__(self, interp, fi, selfkey):
+        self.interp, self.fi, self.selfkey = interp, fi, selfkey
+
+    def __call__(self, *args, **kwargs):
+        a = dict(kwargs)
+        a["__pos__"] = list(args)
+        return self.interp.call_function(self.fi, a, self.selfkey)
+
+    def __deepcopy__(self, memo):
+        return self
+
+    def __repr__(self):
+        return f"<method {self.fi.qual}>"
 
 
 class _Bound:
